@@ -45,6 +45,40 @@ type B struct {
 	kinds   map[string]int
 	lastPlantedTsr []KV
 	live map[uintptr]string // contexts in use right now (serving, or open Lookup / CloneWith contexts)
+	pnames []string // universe of parameter names asked through Param(): every name registered in any route of the case,
+	// the names of the fabricated leftovers, and one name nobody registers
+}
+
+// staleKeys: the parameter names of fabricated leftovers (staleParams)
+var staleKeys = []string{"a", "b", "c", "rest", "mid"}
+
+// notePattern adds the parameter names of a pattern the harness registers to the universe asked through Param()
+func (b *B) notePattern(patterns ...string) {
+	for _, p := range patterns {
+		for _, k := range wildcardNames(p) {
+			if !slices.Contains(b.pnames, k) {
+				b.pnames = append(b.pnames, k)
+			}
+		}
+	}
+}
+
+// paramGets: Param(name) for every name of the universe, each call on its own (a panic is an observation)
+func (b *B) paramGets(c fox.Context) []PObs {
+	out := make([]PObs, 0, len(b.pnames))
+	for _, k := range b.pnames {
+		o := PObs{K: k}
+		func() {
+			defer func() {
+				if r := recover(); r != nil {
+					o.Panic = true
+				}
+			}()
+			o.V = c.Param(k)
+		}()
+		out = append(out, o)
+	}
+	return out
 }
 
 type cloneRec struct {
@@ -57,7 +91,8 @@ func newB(rnd *hx.Rand, id int) *B {
 	return &B{rnd: rnd, next: 1, caseID: id,
 		ctxAddr: map[uintptr]int{}, recAddr: map[uintptr]int{}, hdrAddr: map[uintptr]int{}, reqAddr: map[uintptr]int{},
 		routeID: map[uintptr]int{}, treeID: map[uintptr]int{}, foxID: map[uintptr]int{},
-		reqVal: map[*http.Request]*ReqVal{}, hwInit: map[*httptest.ResponseRecorder][]KV{}, kinds: map[string]int{}, live: map[uintptr]string{}}
+		reqVal: map[*http.Request]*ReqVal{}, hwInit: map[*httptest.ResponseRecorder][]KV{}, kinds: map[string]int{}, live: map[uintptr]string{},
+		pnames: append([]string{"never-registered"}, staleKeys...)}
 }
 
 func (b *B) tok() string {
@@ -159,7 +194,7 @@ func (b *B) staleParams(capN int) ([]fox.Param, int) {
 	n := b.rnd.Intn(capN + 1)
 	ps := make([]fox.Param, n)
 	for i := range ps {
-		ps[i] = fox.Param{Key: hx.Pick(b.rnd, []string{"a", "b", "c", "rest", "mid"}), Value: "STALE" + b.tok()}
+		ps[i] = fox.Param{Key: hx.Pick(b.rnd, staleKeys), Value: "STALE" + b.tok()}
 	}
 	l := 0
 	if n > 0 {
@@ -253,6 +288,7 @@ func (b *B) viewOf(c fox.Context) (v View, ok bool) {
 			ok = false
 		}
 	}()
+	v.PGet = b.paramGets(c)
 	v.Params = paramsKV(slices.Collect(c.Params()))
 	v.Route = -1
 	if rt := c.Route(); rt != nil {
@@ -314,6 +350,16 @@ func (b *B) observe(c fox.Context, a int, spec, why string) int {
 		b.op(fmt.Sprintf("OObserve %s", nat(a)), fmt.Sprintf("observe#%d c%d (%s): %s", k, a, why, v.human()))
 		// QueryParams() cached the parsed query
 		b.op(fmt.Sprintf("OQuery %s", nat(a)), "")
+		if len(v.PGet) > 0 {
+			_, odd := paramHuman(v.PGet, v.Params)
+			if odd {
+				b.kinds["param-getter:ODD-answer"]++ // informal pre-check; the verdict is Coq's
+			}
+			b.kinds["param-getter:calls"] += len(v.PGet)
+			b.op(fmt.Sprintf("OParam %s %s", nat(a), hx.ListOf(v.PGet, func(p PObs) string { return hx.Bytes(p.K) })),
+				fmt.Sprintf("c%d.Param(name) for every name in %v (answers above)", a, b.pnames))
+			b.outs = append(b.outs, paramOut(v.PGet))
+		}
 	}
 	b.specs = append(b.specs, spec)
 	return k
